@@ -226,11 +226,6 @@ func VerifSecondWriteKeepsName() {
 	}
 	path := verif.Choice("path", 3)
 	b := verifSymBlob("second-", path)
-	if mem && path == 2 {
-		// the unverified memory write-through path is a recorded finding
-		// (VerifFindingMemoryPathUnverified)
-		verif.Assume(verifMatches(b.data))
-	}
 	verif.Assert("first-visible", verifReaders(cas, 0))
 	err = verifWrite(cas, path, b.data, b.size, b.pieceLength)
 	verif.Cover("second-write-error", err != nil)
@@ -242,21 +237,19 @@ func VerifSecondWriteKeepsName() {
 	}
 }
 
-// verifMemRefresh runs one backend refresh through the memory write-through
-// path (room for the claimed size) with reads before, between and after a
-// chosen number of drain steps.
-func verifMemRefresh(onlyMatching bool) {
+// VerifFindingMemoryPathUnverified: one backend refresh of arbitrary bytes
+// through the memory write-through path (room for the claimed size), with
+// reads before, between and after a chosen number of drain steps. Recorded as
+// finding F1 (mismatching bytes were served from memory until the drain);
+// fixed in /repo by 9c49c36, now the regression check of that path.
+func VerifFindingMemoryPathUnverified() {
 	verifPickName()
 	b := verifSymBlob("", 2)
-	if onlyMatching {
-		// mismatching bytes on this path are a recorded finding
-		// (VerifFindingMemoryPathUnverified)
-		verif.Assume(verifMatches(b.data))
-	}
 	cas := verifCAS(true, uint64(verif.Bound("blob-len", 2, 4)))
 	matches := verifMatches(b.data)
 	err := verifWrite(cas, 2, b.data, b.size, b.pieceLength)
 	verif.Cover("in-memory", err == nil && cas.CheckInMemCache(verifD))
+	verif.Cover("rejected", err != nil)
 	if err == nil {
 		verif.Assert("accepted-write-matches-name", matches)
 		verif.Assert("accepted-write-is-visible", verifReaders(cas, b.pieceLength))
@@ -269,18 +262,11 @@ func verifMemRefresh(onlyMatching bool) {
 		vis := verifReaders(cas, b.pieceLength)
 		if err == nil {
 			verif.Assert("still-visible-after-drain", vis)
+		} else {
+			verif.Assert("still-nothing-visible-after-drain", !vis)
 		}
 	}
 	if drains > 0 {
 		verif.Cover("drained-to-disk", err == nil && !cas.CheckInMemCache(verifD))
 	}
 }
-
-// VerifMemoryPathMatching: refresh through the memory cache with bytes that
-// hash to the name: bytes, size and metainfo served from memory and, after the
-// drain, from disk describe the same content.
-func VerifMemoryPathMatching() { verifMemRefresh(true) }
-
-// VerifFindingMemoryPathUnverified: the same with arbitrary bytes
-// (FINDINGS.md): mismatching bytes are served from memory until the drain.
-func VerifFindingMemoryPathUnverified() { verifMemRefresh(false) }
